@@ -7,15 +7,35 @@ use rscel::{BindContext, CelContext};
 use serde_json::{json, Value as J};
 use std::collections::BTreeMap;
 
+fn uf_k7(_this: rscel::CelValue, _args: Vec<rscel::CelValue>) -> rscel::CelValue {
+    rscel::CelValue::from_int(7)
+}
+fn uf_k9(_this: rscel::CelValue, _args: Vec<rscel::CelValue>) -> rscel::CelValue {
+    rscel::CelValue::from_int(9)
+}
+fn uf_kerr(_this: rscel::CelValue, _args: Vec<rscel::CelValue>) -> rscel::CelValue {
+    rscel::CelValue::from_err(rscel::CelError::value("model function kerr fails"))
+}
+/// The user functions of Api.tla's FuncModel.
+fn user_func(id: &str) -> &'static rscel::RsCelFunction {
+    match id {
+        "k7" => &uf_k7,
+        "k9" => &uf_k9,
+        _ => &uf_kerr,
+    }
+}
+pub const FUNCS: &[&str] = &["f", "g"];
+
 pub struct World<'a> {
     pub ctxs: BTreeMap<u64, CelContext>,
     pub binds: BTreeMap<u64, BindContext<'a>>,
     pub bound: BTreeMap<u64, BTreeMap<String, V>>, // names this harness bound, per object (to read them back)
+    pub ufuncs: BTreeMap<u64, BTreeMap<String, String>>, // which model function this harness bound under a name, per object
 }
 
 impl<'a> World<'a> {
     pub fn new() -> World<'a> {
-        World { ctxs: BTreeMap::new(), binds: BTreeMap::new(), bound: BTreeMap::new() }
+        World { ctxs: BTreeMap::new(), binds: BTreeMap::new(), bound: BTreeMap::new(), ufuncs: BTreeMap::new() }
     }
 
     pub fn state(&self) -> J {
@@ -40,7 +60,16 @@ impl<'a> World<'a> {
             }
             binds.insert(id.to_string(), J::Object(vals));
         }
-        json!({"ctxs": ctxs, "binds": binds})
+        let mut funcs = serde_json::Map::new();
+        for (id, b) in self.binds.iter() {
+            // presence is observed on the real object; which model function it is, is what this harness bound last
+            let mut m = serde_json::Map::new();
+            for n in FUNCS.iter().copied().filter(|n| b.get_func(n).is_some()) {
+                m.insert(n.to_string(), J::from(self.ufuncs.get(id).and_then(|u| u.get(n)).cloned().unwrap_or_else(|| "?".to_string())));
+            }
+            funcs.insert(id.to_string(), J::Object(m));
+        }
+        json!({"ctxs": ctxs, "binds": binds, "funcs": funcs})
     }
 
     /// Executes one event in place; fills in the observed fields and the state afterwards.
@@ -83,6 +112,8 @@ impl<'a> World<'a> {
                 let as_ = ev["as"].as_u64().unwrap();
                 let cl = self.binds[&b].clone();
                 self.binds.insert(as_, cl);
+                let u = self.ufuncs.get(&b).cloned().unwrap_or_default();
+                self.ufuncs.insert(as_, u);
             }
             "BindParam" => {
                 let n = ev["n"].as_str().unwrap().to_string();
@@ -96,6 +127,29 @@ impl<'a> World<'a> {
                         let _ = bc.bind_params_from_json_obj(J::Object(o));
                     }
                     _ => bc.bind_param(&n, v.to_cel().expect("bindable")),
+                }
+            }
+            "BindFunc" => {
+                let n = ev["n"].as_str().unwrap().to_string();
+                let f = ev["f"].as_str().unwrap().to_string();
+                self.binds.get_mut(&b).unwrap().bind_func(&n, user_func(&f));
+                self.ufuncs.entry(b).or_default().insert(n, f);
+            }
+            "SerRound" => {
+                // the stored program of one context through serialization and back, stored in a context under a name
+                let n = ev["n"].as_str().unwrap().to_string();
+                let to = ev["to"].as_u64().unwrap();
+                let as_ = ev["as"].as_str().unwrap().to_string();
+                let back: Option<rscel::Program> = self.ctxs[&c].get_program(&n).and_then(|p| {
+                    if ev["fmt"] == "json" {
+                        serde_json::to_string(p).ok().and_then(|s| serde_json::from_str::<rscel::Program>(&s).ok())
+                    } else {
+                        bincode::serialize(p).ok().and_then(|s| bincode::deserialize::<rscel::Program>(&s).ok())
+                    }
+                });
+                ev["ok"] = J::from(back.is_some());
+                if let Some(p) = back {
+                    self.ctxs.get_mut(&to).unwrap().add_program(&as_, p);
                 }
             }
             "Exec" => {
@@ -135,7 +189,12 @@ pub const VARS: &[&str] = &["x", "y", "z", "k", "p"];
 fn sources(r: &mut Rng) -> T {
     let x = || id("x");
     let cased = || T::Map(["id", "ID", "Id", "iD", "key"].iter().enumerate().map(|(i, k)| (lit(V::Str(k.to_string())), lit(V::Int(i as i64)))).collect());
-    match r.below(21) {
+    match r.below(25) {
+        // user functions (BindFunc): not callable until bound, bound per binding object, replaced by rebinding
+        21 => call("f", vec![x()]),
+        22 => bin("+", call("f", vec![]), call("g", vec![lit(V::Int(1)), id("y")])),
+        23 => call("coalesce", vec![call("g", vec![]), lit(V::Int(0))]),
+        24 => mcall(id("z"), "map", vec![id("e"), call("f", vec![id("e")])]),
         // a comparison of maps in which one entry differs and another one fails (y = 0): one outcome, whatever the hash state
         17 => bin("==", T::Map(vec![(lit(V::Str("a".into())), x()), (lit(V::Str("b".into())), bin("/", lit(V::Int(10)), id("y"))), (lit(V::Str("c".into())), lit(V::Int(1)))]),
                   T::Map(vec![(lit(V::Str("a".into())), lit(V::Int(2))), (lit(V::Str("b".into())), bin("/", lit(V::Int(10)), id("y"))), (lit(V::Str("c".into())), lit(V::Int(1)))])),
@@ -199,7 +258,9 @@ pub fn random_history(r: &mut Rng, len: usize, first_ctx: u64, first_bind: u64) 
     for _ in 0..len {
         let c = *r.pick(&ctxs);
         let b = *r.pick(&binds);
-        let ev = match r.below(20) {
+        let ev = match r.below(24) {
+            20 | 21 => json!({"a":"BindFunc","b":b,"n":r.pick_str(FUNCS),"f":r.pick_str(&["k7", "k9", "kerr"])}),
+            22 | 23 => json!({"a":"SerRound","c":c,"n":r.pick_str(NAMES),"fmt":if r.chance(1, 2) { "json" } else { "bincode" },"to":*r.pick(&ctxs),"as":r.pick_str(NAMES)}),
             0 => {
                 ctxs.push(next);
                 next += 1;
